@@ -26,19 +26,25 @@ def job(slot, prop, n, props):
     # binaries: hard-link copy is unsafe (go build rewrites in place) -> plain copy of what exists, rebuilt anyway when stale
     sh("cp -u /verif/.work/bin/* %s/verif/.work/bin/ 2>/dev/null" % base)
     inner = ("set -e; ip link set lo up; mount --bind %s/repo /repo; mount --bind %s/verif /verif; cd /verif; "
-             "git -C /repo apply %s/patch.diff; " % (base, base, src))
+             "%s" % (base, base, "" if n.startswith("clean") else "git -C /repo apply %s/patch.diff; " % src))
+    if n.startswith("clean"):
+        src = "/verif/.work/farmclean/%s-%s" % (prop, n)
+        os.makedirs(src, exist_ok=True)
     results = {}
     for p in props:
         t0 = time.time()
-        rc, out = sh("unshare -m -n sh -c '%s ./check %s --tier quick'" % (inner, p), timeout=3000)
+        rc, out = sh("unshare -m -n sh -c '%s VERIF_SEED=%s ./check %s --tier %s'" % (inner, SEED, p, TIER), timeout=3000 if TIER == "quick" else 14000)
         lines = [l for l in out.split("\n") if l.startswith(("VIOLATION", "BROKEN", "FAILING-INPUT", "OK ", "KNOWN-FINDING"))]
         results[p] = {"rc": rc, "wall_s": round(time.time() - t0, 1), "lines": [l[:400] for l in lines[:12]]}
         open(os.path.join(src, "farm.log"), "w").write(out[-20000:])
     json.dump(results, open(os.path.join(src, "farm.json"), "w"), indent=1)
     return prop, n, results
+TIER = os.environ.get("FARM_TIER", "quick")
+SEED = os.environ.get("FARM_SEED", "20260925")
 def main():
     a = sys.argv[1:]
     j = 6
+    global TIER, SEED
     if a and a[0] == "-j":
         j = int(a[1]); a = a[2:]
     jobs = []
